@@ -51,6 +51,8 @@ def scenarios(thorough):
         out.append((label, pre, [['set', 'b', 2], ['open']], 'writer/opener'))
         out.append((label, 'EMPTY', [['set', 'b', 2], ['open-cached']], 'writer/opener'))
         out.append((label, pre, [['set', 'a', 9], ['contains', 'a']], 'overwrite/reader'))
+        # a reader that keeps its handle open after a membership test on a key with several history rows
+        out.append((label, [['a', 0], ['a', 1]], [['contains-hold', 'a'], ['set', 'b', 2]], 'reader holding its handle/writer'))
         out.append((label, pre, [['set', 'a', 9], ['keys']], 'overwrite/reader'))
         if thorough:
             out.append((label, pre, [['set', 'b', 2], ['set', 'c', 3], ['lookup', 'b']], 'writer/writer/reader'))
@@ -139,7 +141,7 @@ def judge(label, pre, actions, results, final):
                 probs.append('%s: key %s, which no one touches, is absent' % (who, kk))
             elif (got == ABSENT or not present) and kk in prem and kk not in deleted:
                 probs.append('%s: key %s is stored throughout (it is only being overwritten) but is absent' % (who, kk))
-        elif a[0] == 'contains':
+        elif a[0] in ('contains', 'contains-hold'):
             kk = json.dumps(a[1])
             if not v and kk in prem and kk not in deleted:
                 probs.append('%s: key %s is stored throughout but membership is False' % (who, kk))
@@ -179,6 +181,12 @@ class Engine:
             r = cl.run_child({'config': label, 'path': os.path.join(snap, 'w', 'arch'), 'action': ['open']}, os.path.join(snap, 'w'))
             if not r.get('ok'):
                 raise RuntimeError('setup failed: %s' % r)
+        elif pre and isinstance(pre[0], list) and len({json.dumps(kv[0]) for kv in pre}) < len(pre):
+            # the same key written several times (a table that keeps one row per write)
+            for kv in pre:
+                r = cl.run_child({'config': label, 'path': os.path.join(snap, 'w', 'arch'), 'action': ['set', kv[0], kv[1]]}, os.path.join(snap, 'w'))
+                if not r.get('ok'):
+                    raise RuntimeError('setup failed: %s' % r)
         elif pre:
             r = cl.run_child({'config': label, 'path': os.path.join(snap, 'w', 'arch'), 'action': ['update', pre]}, os.path.join(snap, 'w'))
             if not r.get('ok'):
